@@ -384,6 +384,60 @@ for (mode, cell), (r, recs) in mresults.items():
             elif not names(rec) or names(rec)[-1] not in ('Terminated', 'ErrorOccured'):
                 chk.violation(f'close.matrix.{cl}->{cn}', f'no-terminal-state|{mname}', f'{cl} -> {cn} ({mname}): ops {sq}: states {names(rec)}', replay)
 
+# ---- an endpoint that aborts AFTER it has ended its own direction, while the opposite direction is silent: the abort
+#      must still end the connection promptly (observed in /api/live: the peer cannot tell a half-closed proxy socket
+#      from a closed one without writing, and writing would end the connection anyway)
+def abort_after_half_close(case):
+    mode, who = case
+    o = Origin('silent') if False else None
+    ls = socket.socket(); ls.setsockopt(socket.SOL_SOCKET, socket.SO_REUSEADDR, 1); ls.bind(('127.0.0.1', 0)); ls.listen(4)
+    hp_, ap_ = free_port(), free_port()
+    pxa = Proxy({'listeners': [{'name': 'http', 'bind': f'127.0.0.1:{hp_}'}], 'connectors': [{'name': 'direct'}], 'rules': [{'target': 'direct'}],
+                 'metrics': {'bind': f'127.0.0.1:{ap_}', 'ui': None}, 'ioParams': {'bufferSize': 65536, 'useSplice': mode}}, 'c04a')
+    pxa.api_port = ap_
+    if not pxa.start([hp_, ap_]):
+        return {'error': pxa.log()[-300:]}
+    try:
+        c = socket.create_connection(('127.0.0.1', hp_), timeout=5)
+        c.sendall(f'CONNECT 127.0.0.1:{ls.getsockname()[1]} HTTP/1.1\r\n\r\n'.encode())
+        ls.settimeout(5)
+        srv, _ = ls.accept()
+        head, rest = recv_head(c, 5)
+        if not head.startswith(b'HTTP/1.1 200'):
+            return {'error': f'no tunnel: {head[:40]!r}'}
+        x, y = (c, srv) if who == 'client' else (srv, c)
+        x.sendall(b'request')
+        if recv_exact(y, 7, 3) != b'request':
+            return {'error': 'payload not relayed'}
+        x.shutdown(socket.SHUT_WR)
+        if expect_end(y) != 'eof':
+            return {'error': 'end-of-stream not relayed'}
+        time.sleep(0.2)
+        rst_close(x)                       # ... and now the endpoint that had finished sending is gone for good
+        t0 = time.time()
+        gone = None
+        while time.time() - t0 < 3.0:
+            st, body = pxa.api('GET', '/live')
+            if st == 200 and not any(r.get('listener') == 'http' for r in json.loads(body)):
+                gone = time.time() - t0
+                break
+            time.sleep(0.1)
+        y.close()
+        return {'finished_after_s': gone}
+    finally:
+        pxa.stop(); ls.close()
+
+ACASES = [(m, w) for m in (True, False) for w in ('client', 'origin')]
+for case, r in zip(ACASES, run_parallel(ACASES, abort_after_half_close, workers=4)):
+    mode, who = case
+    evals += 1
+    mname = 'splice' if mode else 'buffered'
+    if isinstance(r, tuple) or 'error' in r:
+        machinery(f'abort after half-close {case}: {r}')
+    distinct.add(('abort-after-half-close', mname, who, r['finished_after_s'] is not None))
+    if r['finished_after_s'] is None:
+        chk.violation('close.abort-after-half-close', f'connection-lingers:{who}|{mname}', f'{who} sent its bytes, ended its direction, then reset the connection while the other side stayed silent ({mname}): 3 s later the proxy still lists the connection as live', {'useSplice': mode, 'who': who})
+
 # ---- more in flight than the kernel absorbs: the sender pushes 8 MiB and ends its direction while the receiver (64 KiB
 #      receive buffer) is not reading for 1.5 s, so the relay meets a full send buffer (short writes, would-block) with
 #      the end-of-stream already queued behind the data. Both directions x both I/O modes x plain / TLS listener.
